@@ -4,7 +4,7 @@ CONSTANTS
   MaxSlots = 4
   MaxTx = 4
   MaxUpd <- Unbounded
-  MaxViews = 3
+  MaxViews = 4
   MaxEnv <- Unbounded
   Blank <- MCBlank
   SK <- MCSK
